@@ -144,6 +144,41 @@ pub enum Unit {
 pub struct RecvCase {
     pub client_receiver: bool,
     pub units: Vec<Unit>,
+    /// Some(k): the sender's sequence numbers jump to u32::MAX - k before the first unit, so that the history crosses
+    /// the 32-bit boundary (a forward jump is legal, numbers only have to increase)
+    #[serde(default)]
+    pub near_wrap: Option<u8>,
+}
+
+/// Chunks of a message (policy None) numbered from `*seq` with wrapping arithmetic; the second value tells whether the
+/// numbering crossed the 32-bit boundary. (Chunker::encode itself cannot number across the boundary.)
+fn chunks_wrapping(ch: &SecureChannel, seq: &mut u32, request_id: u32, m: &SupportedMessage) -> (Vec<MessageChunk>, bool) {
+    let mut chunks = Chunker::encode(1, request_id, 0, 8196, ch, m).expect("encode");
+    let mut wrapped = false;
+    for (i, c) in chunks.iter_mut().enumerate() {
+        let s = seq.wrapping_add(i as u32);
+        if s < *seq {
+            wrapped = true;
+        }
+        // MSG chunk, policy None: 12 header + 4 token id, then the sequence number
+        c.data[16..20].copy_from_slice(&s.to_le_bytes());
+    }
+    let next = seq.wrapping_add(chunks.len() as u32);
+    if next < *seq {
+        wrapped = true;
+    }
+    *seq = next;
+    (chunks, wrapped)
+}
+
+fn peer_chunks(peer: &mut Peer, m: &SupportedMessage, wrapped: &mut bool) -> Vec<MessageChunk> {
+    let id = peer.next_request_id;
+    peer.next_request_id += 1;
+    let mut seq = peer.next_seq;
+    let (chunks, w) = chunks_wrapping(&peer.channel, &mut seq, id, m);
+    peer.next_seq = seq;
+    *wrapped |= w;
+    chunks
 }
 
 thread_local! {
@@ -223,12 +258,17 @@ fn server_receiver(ctx: &Ctx, c: &RecvCase) -> PResult {
     let mut delivered: Vec<u32> = Vec::new();
     let mut handle = 100u32;
     let mut nontrivial = false;
+    let mut wrapped = false;
+    if let Some(k) = c.near_wrap {
+        peer.next_seq = u32::MAX - k as u32;
+        ctx.class("near_wrap");
+    }
     'units: for (ui, u) in c.units.iter().enumerate() {
         handle += 1;
         let (chunks, must_not_deliver, what): (Vec<MessageChunk>, Option<u32>, String) = match u {
             Unit::Good(n) => {
                 let m = read_request(handle, 1 + (*n as usize % 300));
-                (peer.chunks(&m, 8196), None, "good".into())
+                (peer_chunks(&mut peer, &m, &mut wrapped), None, "good".into())
             }
             Unit::Replay(k) => {
                 if good_sent.is_empty() {
@@ -245,10 +285,10 @@ fn server_receiver(ctx: &Ctx, c: &RecvCase) -> PResult {
                 let mut chunks = if *kind % 6 == 5 {
                     peer.next_seq = peer.next_seq.wrapping_add(3);
                     // a gap *before* a message is legal (sequence numbers only need to increase); used as a control
-                    let ch = peer.chunks(&m, 8196);
+                    let ch = peer_chunks(&mut peer, &m, &mut wrapped);
                     (ch, None, "gap-before-message".to_string())
                 } else {
-                    let ch = peer.chunks(&m, 8196);
+                    let ch = peer_chunks(&mut peer, &m, &mut wrapped);
                     (ch, Some(handle), String::new())
                 };
                 if chunks.1.is_some() {
@@ -287,7 +327,12 @@ fn server_receiver(ctx: &Ctx, c: &RecvCase) -> PResult {
                 break 'units;
             }
         }
-        if genuine && !delivered.contains(&handle) {
+        if wrapped {
+            ctx.class("sequence_numbers_wrapped");
+        }
+        // once the numbers have crossed the 32-bit boundary delivery is not required (wrap-around is not implemented;
+        // refusing is safe), but replays and double delivery stay forbidden
+        if genuine && !wrapped && !delivered.contains(&handle) {
             return ctx.fail("receiver/server/genuine-not-delivered", format!("unit {} ({}): a genuine message of {} chunks with fresh sequence numbers was not answered", ui, what, n_chunks));
         }
     }
@@ -306,7 +351,11 @@ fn client_receiver(ctx: &Ctx, c: &RecvCase) -> PResult {
     let mut sb = SendBuffer::new(65535, 0, 0);
     let mut server_ch = fixtures::plain_channel(Role::Server);
     server_ch.set_secure_channel_id(7);
-    let mut seq = 1u32;
+    let mut seq = match c.near_wrap {
+        Some(k) => u32::MAX - k as u32,
+        None => 1u32,
+    };
+    let mut wrapped = false;
     let far = std::time::Instant::now() + std::time::Duration::from_secs(3600);
     let mut good: Vec<(u32, Vec<MessageChunk>)> = Vec::new();
     let mut nontrivial = false;
@@ -333,8 +382,8 @@ fn client_receiver(ctx: &Ctx, c: &RecvCase) -> PResult {
             nontrivial = true;
             (clone_chunks(ch), true, "replay")
         } else {
-            let ch = Chunker::encode(seq, id, 0, 8196, &server_ch, &resp).map_err(|e| Failure { sig: "setup".into(), detail: e.to_string() })?;
-            seq += ch.len() as u32;
+            let (ch, w) = chunks_wrapping(&server_ch, &mut seq, id, &resp);
+            wrapped |= w;
             (ch, false, "good")
         };
         let mut what = what;
@@ -366,7 +415,7 @@ fn client_receiver(ctx: &Ctx, c: &RecvCase) -> PResult {
                 good.push((id, kept));
             }
             Ok(Err(_)) | Err(_) => {
-                if what == "good" && !closed {
+                if what == "good" && !closed && !wrapped {
                     return ctx.fail("receiver/client/genuine-not-delivered", format!("unit {}: genuine response of {} chunks did not complete request {}", ui, kept.len(), id));
                 }
             }
@@ -403,13 +452,13 @@ fn unit() -> impl Strategy<Value = Unit> {
 pub fn def() -> PropDef {
     PropDef {
         id: "C12",
-        rule: "sender: 1..20 messages of 1..5 chunks through the real client SendBuffer and the server MessageWriter, the wire bytes re-framed and checked for +1 sequence numbers across the whole history and pairwise distinct request ids; receiver: histories of genuine multi-chunk messages, verbatim replays of earlier accepted messages, and messages with one fault (dropped / swapped / duplicated chunk, foreign request id or channel id, sequence gap) delivered to the real server transport (after HEL + OPN) and to the real client transport state; oracle on delivered messages: no message answered twice, faulty or replayed messages never delivered, genuine ones delivered; non-trivial = a replay after an accepted multi-chunk message, or >= 3 chunks over >= 2 messages; distinct = distinct history",
-        assumptions: &["policy None (numbering logic is policy independent; C07/C08 cover security)", "a duplicated chunk inside one message may be de-duplicated: delivering the genuine message is then allowed", "an error returned by the receiver closes the connection, as the reading loops do"],
+        rule: "sender: 1..20 messages of 1..5 chunks through the real client SendBuffer and the server MessageWriter, the wire bytes re-framed and checked for +1 sequence numbers across the whole history and pairwise distinct request ids; receiver: histories of genuine multi-chunk messages, verbatim replays of earlier accepted messages, and messages with one fault (dropped / swapped / duplicated chunk, foreign request id or channel id, sequence gap) delivered to the real server transport (after HEL + OPN) and to the real client transport state, a quarter of the histories with sequence numbers that start up to 13 below u32::MAX and cross the 32-bit boundary; oracle on delivered messages: no message answered twice, faulty or replayed messages never delivered, genuine ones delivered; non-trivial = a replay after an accepted multi-chunk message, or >= 3 chunks over >= 2 messages; distinct = distinct history",
+        assumptions: &["policy None (numbering logic is policy independent; C07/C08 cover security)", "a duplicated chunk inside one message may be de-duplicated: delivering the genuine message is then allowed", "an error returned by the receiver closes the connection, as the reading loops do", "sequence number wrap-around is not implemented by the stack: once the sender's numbers have crossed the 32-bit boundary a refusal of genuine messages is accepted, replays and double delivery are not"],
         abort_possible: false,
         parts: |tier| {
             vec![
                 part("sender", tier.pick(600, 20_000), (any::<bool>(), proptest::collection::vec(prop_oneof![0u32..400, 8000u32..40_000], 1..20)).prop_map(|(server_writer, sizes)| SendCase { server_writer, sizes }), sender),
-                part("receiver", tier.pick(2_500, 80_000), (any::<bool>(), proptest::collection::vec(unit(), 1..10)).prop_map(|(client_receiver, units)| RecvCase { client_receiver, units }), receiver),
+                part("receiver", tier.pick(2_500, 80_000), (any::<bool>(), proptest::collection::vec(unit(), 1..10), prop_oneof![3 => Just(None), 1 => (0u8..14).prop_map(Some)]).prop_map(|(client_receiver, units, near_wrap)| RecvCase { client_receiver, units, near_wrap }), receiver),
             ]
         },
     }
